@@ -1,9 +1,8 @@
 package main
 
 import (
-	"fmt"
+	"go/token"
 	"go/types"
-	"os"
 	"strings"
 
 	"golang.org/x/tools/go/ssa"
@@ -145,36 +144,68 @@ func runC04(e *Engine, r *Report) {
 			if !fieldV(sendField)(s.Common().Value) {
 				return
 			}
-			n++
 			key := "node.sendRaftMessage invoked in " + fname(fn)
-			in := s.(ssa.Instruction)
-			if g, _ := e.guardedOnAllPaths(in, reqBool("", e.callV(freeOrder), true)); g {
-				r.ok("GD-send-class", key+" (free-order filter)", e.ipos(s), "only free-order messages pass")
-				return
-			}
-			// a locally built Quiesce message
-			isQ := false
-			if len(s.Common().Args) > 0 {
-				if ld, ok := s.Common().Args[0].(*ssa.UnOp); ok {
-					if al := rootAlloc(ld.X); al != nil {
-						forEachInstr(fn, func(x ssa.Instruction) {
-							if st, ok := x.(*ssa.Store); ok {
-								if f, base, ok := fieldOfAddr(st.Addr); ok && f == msgType && base == ssa.Value(al) && constV(quiesceC)(st.Val) {
-									isQ = true
+			// classify the invocation per calling context: a helper that
+			// merely forwards to the callback inherits the class of each of
+			// its call sites
+			var classify func(in ssa.Instruction, depth int, chain []string) (bool, []string)
+			classify = func(in ssa.Instruction, depth int, chain []string) (bool, []string) {
+				if g, _ := e.guardedOnAllPaths(in, reqBool("", e.callV(freeOrder), true)); g {
+					n++
+					return true, nil // free-order filter
+				}
+				if c, isC := in.(ssa.CallInstruction); isC && in == s.(ssa.Instruction) {
+					// a locally built Quiesce message
+					if len(c.Common().Args) > 0 {
+						if ld, ok := c.Common().Args[0].(*ssa.UnOp); ok {
+							if al := rootAlloc(ld.X); al != nil {
+								isQ := false
+								forEachInstr(in.Parent(), func(x ssa.Instruction) {
+									if st, ok := x.(*ssa.Store); ok {
+										if f, base, ok := fieldOfAddr(st.Addr); ok && f == msgType && base == ssa.Value(al) && constV(quiesceC)(st.Val) {
+											isQ = true
+										}
+									}
+								})
+								if isQ {
+									n++
+									return true, nil
 								}
 							}
-						})
+						}
 					}
 				}
+				// ordered send: after a successful save inside this function?
+				res := e.findPath(in.Parent(), nil, func(x ssa.Instruction) bool { return x == in }, isSavedOK, nil)
+				if !res.Found {
+					n++
+					return true, nil
+				}
+				if depth == 0 {
+					return false, append(chain, "depth bound reached at "+fname(in.Parent()))
+				}
+				callers := e.CallerSites(in.Parent())
+				cnt := 0
+				for _, cs := range callers {
+					if p := fnPkg(cs.Parent()); p == nil || !scopePkg(p.Path()) || !e.IsLive(outermostFn(cs.Parent())) {
+						continue
+					}
+					cnt++
+					if _, isGo := cs.(*ssa.Go); isGo {
+						return false, append(chain, "spawned by go at "+e.ipos(cs))
+					}
+					if ok, w := classify(cs.(ssa.Instruction), depth-1, append(chain, fname(cs.Parent())+" at "+e.ipos(cs))); !ok {
+						return false, w
+					}
+				}
+				if cnt == 0 {
+					return false, append(chain, fname(in.Parent())+" is an entry: nothing precedes it")
+				}
+				return true, nil
 			}
-			if isQ {
-				r.ok("GD-send-class", key+" (locally built Quiesce notification)", e.ipos(s), "carries no raft state")
-				return
-			}
-			// ordered send: only after a successful save, on every call chain
-			ok, w := e.alwaysPrecededBy(in, isSavedOK, 4)
-			r.check(ok, "MPT-persist-before-send", key+" (ordered send)", e.ipos(s),
-				"the message leaves only after SaveRaftState returned on every call chain",
+			ok, w := classify(s.(ssa.Instruction), 4, nil)
+			r.check(ok, "MPT-persist-before-send", key+" (free-order filter, local Quiesce, or ordered send after the save in every calling context)", e.ipos(s),
+				"the message leaves only after SaveRaftState returned on every call chain, unless it is a free-order or Quiesce message",
 				"a raft message can be handed to the transport before the Update was saved", w...)
 		})
 	}
@@ -470,36 +501,27 @@ func runTanSync(e *Engine, r *Report) {
 					}
 					return false
 				}
-				edgeOK := func(p, s2 *ssa.BasicBlock) bool {
-					if len(p.Instrs) == 0 {
-						return true
-					}
-					ifi, ok := p.Instrs[len(p.Instrs)-1].(*ssa.If)
-					if !ok {
-						return true
-					}
-					if s2 != p.Succs[1] {
-						return true // only false edges can be exempt
-					}
-					if flag != nil && e.dependsOn(ifi.Cond, func(v ssa.Value) bool { return v == flag }, 0) {
-						if os.Getenv("DBCHECK_DEBUG") != "" {
-							fmt.Println("DEBUG prune", fname(fn), p.Index, "->", s2.Index, e.describeValue(ifi.Cond))
-						}
-						return false // leaves because write said no sync is needed
-					}
-					return true
-				}
-				// `x != nil` tests on the selected *db handle: nil only when nothing was written
+				// an edge is exempt when it establishes "the write's sync flag
+				// (or a flag accumulated from it) is false", in whatever form the
+				// test is written (`if sync`, `if !sync { return }`, `a || b`),
+				// or "the selected *db handle is nil" (nothing was written)
 				edgeOK2 := func(p, s2 *ssa.BasicBlock) bool {
-					if !edgeOK(p, s2) {
-						return false
-					}
-					if len(p.Instrs) == 0 {
-						return true
-					}
-					if ifi, ok := p.Instrs[len(p.Instrs)-1].(*ssa.If); ok && s2 == p.Succs[1] {
-						if b, ok := ifi.Cond.(*ssa.BinOp); ok && b.Op.String() == "!=" && isNilConst(b.Y) {
-							if pt, ok := b.X.Type().(*types.Pointer); ok && dbT != nil && types.Identical(pt.Elem(), dbT) {
+					for _, f := range expandFacts(edgeOnly(p, s2)) {
+						if u, isU := f.V.(*ssa.UnOp); isU && u.Op == token.NOT {
+							continue
+						}
+						if !f.Pol && flag != nil && e.dependsOn(f.V, func(v ssa.Value) bool { return v == flag }, 0) {
+							if _, isCmp := f.V.(*ssa.BinOp); !isCmp {
+								return false // leaves because write said no sync is needed
+							}
+						}
+						if b, ok := f.V.(*ssa.BinOp); ok && (isNilConst(b.Y) || isNilConst(b.X)) {
+							x := b.X
+							if isNilConst(b.X) {
+								x = b.Y
+							}
+							isNil := (b.Op == token.EQL) == f.Pol
+							if pt, ok := x.Type().(*types.Pointer); ok && isNil && dbT != nil && types.Identical(pt.Elem(), dbT) {
 								return false
 							}
 						}
